@@ -1,6 +1,6 @@
 """Builds the corpus against /repo's working tree, runs the real code and the Lean driver, collects results."""
 import hashlib
-import zlib, json, os, re, shutil, subprocess, sys, time, fcntl
+import zlib, json, os, re, shutil, subprocess, sys, time, fcntl, collections
 
 import gen, render, dumpparse, rustexpr, structure, semgen
 
@@ -857,7 +857,16 @@ def _build_and_run(tier, seed, profiles, decls_override=None):
         if first_text is None:
             first_text, first_prof = text, prof
         op_lines = text.splitlines()
-        flags[prof] = [l for l in op_lines if not l.startswith("op ") and not l.startswith("CONST-OK")][:500]
+        # flag lines (everything that is not an operation): at most 200 per kind, so that one kind cannot crowd out another
+        per_tag = collections.Counter()
+        flags[prof] = []
+        for l in op_lines:
+            if l.startswith("op ") or l.startswith("CONST-OK"):
+                continue
+            tg = l.split(" ", 1)[0]
+            per_tag[tg] += 1
+            if per_tag[tg] <= 200:
+                flags[prof].append(l)
         const_ok = sum(1 for l in op_lines if l.startswith("CONST-OK"))
         out, stat_line = run_driver_sharded(proto + nf_lines, 1 if prof == "dev" else 0, [l for l in op_lines if l.startswith("op ")])
         mismatches[prof] = pick_mismatches(out, 5000)
